@@ -32,6 +32,8 @@ def run(ctx) -> None:
                               "seen while indexing ALL right rows), raises SerifValueError", 3)
     ctx.rule("b.left-check", "left-duplicate raise is control-dependent on exactly (left flag AND key already seen), "
                              "the key is recorded on every iteration, and the check precedes the matched/unmatched split", 3)
+    ctx.rule("b.not-bypassed", "no return precedes the loops in which the uniqueness checks live (a fast path for an empty side "
+                               "would accept duplicate keys)", 3)
     ctx.rule("c.no-influence", "expect and the flags flow only into the cardinality tests, their bookkeeping and "
                                "messages - never into the index, the result buffers, loop bounds or the return value", 3)
     ctx.exhaustive = True
@@ -102,6 +104,9 @@ def run(ctx) -> None:
         # ---------------- b.left-check ----------------
         ok, msg, node = _left_check(jf, left_flag, left_raise)
         ctx.ob("b.left-check", f, "left-raise", ok, msg, node or f.node, message=f"{variant}: {msg}")
+        # ---------------- b.not-bypassed ----------------
+        from . import joinrules as _jr
+        _jr.no_early_result(ctx, jf, "b.not-bypassed")
         # ---------------- c.no-influence ----------------
         ok, msg, node = _no_influence(jf)
         ctx.ob("c.no-influence", f, "flag-dataflow", ok, msg, node or f.node, message=f"{variant}: {msg}")
